@@ -1,11 +1,13 @@
 import PolyVerif.Base.JVal
 /-
-A small JSON reader (text as code points → `JVal`) used by the C15 driver to read what the real
-`json.Marshal` / `json.MarshalIndent` wrote.  It accepts the JSON grammar restricted to integer
-numbers (a fraction or exponent is rejected: no poly field is a float).  Escapes `\uXXXX`
-(Go writes them for `<`, `>`, `&`, U+2028, U+2029 and control characters) are decoded; surrogate
-pairs are combined, a lone surrogate becomes U+FFFD as in Go.  Total: recursion on fuel.
-This file is part of the correspondence tooling, not of any theorem.
+A JSON reader (text as code points → `JVal`): what `json.Unmarshal` does at the level of text.  It accepts the JSON grammar
+restricted to integer numbers (a fraction or exponent is rejected: no poly field is a float), blanks between tokens,
+the escapes `\" \\ \/ \b \f \n \r \t \uXXXX` (either case of hex; surrogate pairs are combined, a lone surrogate becomes
+U+FFFD as in Go).  Total: recursion on fuel.  The driver of C15 reads with it what the real `json.Marshal` /
+`json.MarshalIndent` wrote; Lemmas/JsonText.lean proves that it reads back every value the printers of Base/JVal.lean
+write (compact and under any blank-only layout), which is the text layer of the theorems in Props/C15 and Props/C16.
+On texts that neither a printer nor `json.Marshal` writes it is laxer than `encoding/json` (`007` reads as 7, any natural
+number is accepted raw inside a string); nothing is claimed there.
 -/
 namespace PolyVerif.JsonRead
 open PolyVerif
